@@ -1291,6 +1291,16 @@ class Interp:
             return self.dispatch_target(self_ty, trait, c.method, gargs, args, st, ctx)
         segs = c.segs
         names = [s for s, _ in segs]
+        if any(n.startswith('<impl ') for n in names):
+            # inherent method defined in another module than its type:  mod::path::<impl Type>::method
+            k = next(i for i, n in enumerate(names) if n.startswith('<impl '))
+            mod = '::'.join(names[:k])
+            method = names[-1]
+            cands = [n for n in self.p.by_last.get(method, []) if re.search(r'(^|::)' + re.escape(mod) + r'::<impl at [^>]*>::' + re.escape(method) + r'(#\d+)?$', n)
+                     and (n.startswith(crate + '::') or n.startswith(mod))]
+            if len(cands) == 1:
+                fn_g = [self.canon_ty(crate, subst(g, tenv)) for g in segs[-1][1]]
+                return cands[0], self.bind_fn_generics(cands[0], dict(tenv), fn_g, ctx)
         # promoted / closures never appear as callees.  free function or inherent method.
         fn_g = [self.canon_ty(crate, subst(g, tenv)) for g in segs[-1][1]]
         path = '::'.join(names)
